@@ -364,6 +364,10 @@ func TestVerif_C17_e2eprogress(t *testing.T) {
 			} else {
 				s.Observe("dl-"+id+"-"+proto, ok, "", len(emitted) > 0, human, c17Ints64(emitted))
 			}
+			o.mu.Lock()
+			delete(o.dl, id)
+			o.mu.Unlock()
+			c17Done(c)
 			continue
 		}
 		// ---- upload
@@ -464,6 +468,7 @@ func TestVerif_C17_e2eprogress(t *testing.T) {
 		} else {
 			s.Observe("up-"+strconv.Itoa(i)+"-"+proto, ok, "", total > 0, human, strings.Join(implGot, " "))
 		}
+		c17Done(c)
 	}
 	s.Finish()
 }
